@@ -11,6 +11,7 @@ verus! {
 //@include shims/crc32fast.rs
 //@include shims/path.rs
 //@include common/types.rs
+//@include shims/str_ops.rs
 //@include spec/paths.rs
 pub open spec fn name_components(name: Seq<char>) -> Seq<path::Component<'static>> { path::spec_components(path::spec_path_of(name)) }
 //@include shims/fs.rs
@@ -29,6 +30,7 @@ pub open spec fn sig_at(d: Seq<u8>, p: int, sig: u32) -> bool { inb(d, p, 4) && 
 
 impl ZipFileData {
 //@use zfd_enclosed_name nobody
+//@use zfd_file_name_sanitized nobody
 //@use zfd_unix_mode nobody
 }
 //@item src/read.rs | enum CryptoReader
@@ -49,6 +51,7 @@ impl<'a> Read for ZipFile<'a> {
 //@impl src/read.rs | impl<'a> ZipFile<'a>
 impl<'a> ZipFile<'a> {
 //@use zipfile_enclosed_name
+//@use zipfile_mangled_name
 //@use zipfile_name nobody
 //@use zipfile_is_dir nobody
 //@use zipfile_is_file nobody
@@ -75,6 +78,7 @@ impl<R: Read + io::Seek> ZipArchive<R> {
 //@impl src/read/stream.rs | impl ZipStreamFileMetadata
 impl ZipStreamFileMetadata {
 //@use zsfm_enclosed_name
+//@use zsfm_mangled_name
 //@use zsfm_unix_mode
 }
 // T11: the crate's visitor trait; members verbatim (checked against the source by name below)
